@@ -68,3 +68,27 @@ package kgo
 //@   site call delete#3 assert [direct-verdict-forgotten] arg1 == topic
 //@   site call delete#4 assert [direct-dropped-from-configured] arg1 == topic
 //@   site call delete#5 assert [direct-dropped-from-pinned] arg1 == topic
+
+// AddConsumePartitions: a topic's map of pinned partitions is created only when the topic has none yet - partitions
+// pinned by an earlier call (or by ConsumePartitions) stay pinned - and every added partition is recorded under its
+// own number with the offset it was given.
+//@ func (cl *Client) AddConsumePartitions(partitions map[string]map[int32]Offset)
+//@   prop C39
+//@   site mapupdate map[int32]github.com/twmb/franz-go/pkg/kgo.Offset#0 assert [earlier-pins-are-never-replaced] mapkey == t && (!had || prev == nil)
+//@   site mapupdate Offset#0 assert [pin-recorded-as-given] mapkey == p && val == o
+//@   site call add#0 assert [partition-marked-for-consumption] arg1 == t && arg2 == p
+
+// keepFilter (RemoveConsumePartitions, purges): BOTH kinds of pending loads - list and epoch - are filtered; a
+// removed partition's pending OffsetForLeaderEpoch load must not survive and re-enable its cursor.
+// (Stated as: the walk covers two load maps and ends after the second; that they are l.List and l.Epoch is read off
+// the two-element literal, whose backing array the contract language cannot name.)
+//@ func (l *listOrEpochLoads) keepFilter(keep func(string, int32) bool)
+//@   prop C39
+//@   loop 0 exit [both-kinds-were-filtered] rangeindex == 1
+//@   site call delete#0 assert [only-what-keep-rejects-is-dropped] !$call0 && arg0 == ps && arg1 == p
+
+// mergeTopicPartitions: the stored topic data learns the metadata response's internal-topic flag (a regex consumer
+// skips internal topics by this flag).
+//@ func (cl *Client) mergeTopicPartitions(topic string, l *topicPartitions, mt *metadataTopic, kind partitionKind, css *consumerSessionStopper, retryWhy *multiUpdateWhy)
+//@   prop C39
+//@   site store isInternal#0 assert [internal-flag-taken-from-the-metadata] val == r.isInternal
